@@ -503,4 +503,95 @@ Proof.
     apply (Hno j y). cbn. rewrite get_set. destruct (N.eqb_spec i j) as [<-|]; [congruence|exact Hy].
   - intros j Hj. cbn in Hj. rewrite get_set in Hj. destruct (N.eqb_spec i j); [discriminate|]. rewrite Hbeg. auto.
 Qed.
+
+Lemma R2_flush s o th : R2 s o -> R2 (flush th s) o.
+Proof. intros HR. eapply R2_frame; eauto using msame_flush, osame_refl. apply R1_flush. apply (r2_r1 _ _ HR). Qed.
+
+Lemma asm_state o th i s0 : asm o (th, EState i s0) = true -> s0 <> STerminating.
+Proof. intros H ->. discriminate. Qed.
+
+Lemma R2_step s o th e s' : R2 s o -> step s (th, e) = Some s' -> asm o (th, e) = true ->
+  w_dup (obs_step cs o (th, e)) = false -> R2 s' (obs_step cs o (th, e)).
+Proof.
+  intros HR H Hasm Hw.
+  assert (H1 : R1 cs s' (obs_step cs o (th, e))) by (eapply R1_step; eauto; apply (r2_r1 _ _ HR)).
+  apply (R2_flush _ _ th) in HR. unfold step in H. cbn [fst snd] in H.
+  set (s0 := flush th s) in *. clearbody s0. clear s.
+  destruct (step_core_kind _ _ _ _ H) as [? ?|i x ? ? ? ? ? ?|Hk|Hk|Hk|i st0 ? Hk|i st0 b ? Hk|Hk|i ? Hk|Hk|Hk]; subst.
+  - eapply R2_frame; eauto using msame_refl, obs_step_osame.
+  - eapply R2_begin; eauto.
+  - destruct (mexc e) eqn:Hex.
+    + destruct (reg_mexc _ _ _ _ Hk Hex) as (i & n & ->). eapply R2_newinst; eauto.
+    + eapply R2_frame; [eassumption|eassumption|eapply step_reg_msame; eauto|apply obs_step_osame; eapply reg_oexc; eauto].
+  - eapply R2_frame; [eassumption|eassumption|eapply step_api_msame; eauto|apply obs_step_osame; eapply api_oexc; eauto].
+  - eapply R2_frame; [eassumption|eassumption|eapply step_stop_msame; eauto|apply obs_step_osame; eapply stop_oexc; eauto].
+  - eapply R2_state; eauto using asm_state.
+  - eapply R2_procend; eauto.
+  - eapply R2_frame; [eassumption|eassumption|eapply step_shutdown_msame; eauto|apply obs_step_osame; eapply shutdown_oexc; eauto].
+  - eapply R2_frame; [eassumption|eassumption|eapply step_ordered_msame; eauto|apply obs_step_osame; reflexivity].
+  - destruct (mexc e) eqn:Hex.
+    + destruct (env_mexc _ _ _ _ Hk Hex) as (i & c & ->). eapply R2_cmdexit; eauto.
+    + eapply R2_frame; [eassumption|eassumption|eapply step_env_msame; eauto|apply obs_step_osame; eapply env_oexc; eauto].
+  - eapply R2_own; eauto.
+Qed.
+
+(* (a1) *)
+Lemma R2_mon_legal s o th e s' : R2 s o -> step s (th, e) = Some s' -> asm o (th, e) = true -> mon_legal o (th, e) = true.
+Proof.
+  intros HR H Hasm. destruct e; try reflexivity.
+  apply (R2_flush _ _ th) in HR. unfold step in H. cbn [fst snd] in H.
+  change (step_state (flush th s) th i s0 = Some s') in H. set (sf := flush th s) in *. clearbody sf.
+  destruct (state_effect _ _ _ _ _ H) as (x & x' & Hx & _ & _ & _ & _ & _ & _ & _ & _ & _ & _ & Htr).
+  pose proof (R2_on_status _ _ _ _ HR Hx) as Hprev.
+  destruct (r2_r1 _ _ HR) as [HRc _].
+  destruct (rc_inst _ _ _ HRc i x Hx) as (xo & Hxo & Hn & Hc & Hla).
+  destruct (r2_inst _ _ HR _ _ _ Hx Hxo) as [PA PB PC PD PE PF].
+  unfold mon_legal. cbn [snd]. rewrite Hprev. unfold oi_get. rewrite Hxo.
+  apply asm_state in Hasm.
+  destruct Htr as [c E1 E2 E3|E1 E2 E3|todo E1 E2 E3 E4|E1 E2 E3 E4|c E1 E2 E3 E4|c E1 E2 E3]; try congruence.
+  - (* initial Pending *) subst s0. change (begun sf i = false) in E4.
+    destruct (o_byapi xo) eqn:Eb.
+    + rewrite Hla, PC by (now rewrite E2). cbn. now rewrite orb_true_r.
+    + rewrite PF; auto. now rewrite E2.
+  - subst s0. assert (Hb : begun sf i = true) by (eapply begun_own; eauto).
+    rewrite E2 in PE. specialize (PE eq_refl Hb). cbn in PE. destruct (st (vis_of sf (nm x))); try discriminate; reflexivity.
+  - subst s0. assert (Hb : begun sf i = true) by (eapply begun_own; eauto).
+    rewrite E2 in PE. specialize (PE eq_refl Hb). cbn in PE. destruct (st (vis_of sf (nm x))); try discriminate; reflexivity.
+  - assert (Hb : begun sf i = true) by (eapply begun_own; eauto).
+    rewrite E2 in PE. specialize (PE eq_refl Hb). destruct s0; cbn in PE; try discriminate;
+    destruct (st (vis_of sf (nm x))); try discriminate; reflexivity.
+Qed.
+
+(* (b) *)
+Lemma R2_mon_launch s o th e s' : R2 s o -> step s (th, e) = Some s' -> mon_launch o (th, e) = true.
+Proof.
+  intros HR H. destruct e; try reflexivity. destruct ok; [|reflexivity].
+  apply (R2_flush _ _ th) in HR. unfold step in H. cbn [fst snd] in H.
+  change (step_own (flush th s) th (ELaunch true) = Some s') in H. set (sf := flush th s) in *. clearbody sf.
+  destruct (own_effect _ _ _ _ H) as (i & x & x' & Hth & Hx & _ & _ & _ & _ & _ & _ & Htr & _).
+  pose proof (R2_on_status _ _ _ _ HR Hx) as Hprev.
+  destruct (r2_r1 _ _ HR) as [HRc _].
+  destruct (rc_inst _ _ _ HRc i x Hx) as (xo & Hxo & _).
+  destruct (r2_inst _ _ HR _ _ _ Hx Hxo) as [PA PB PC PD PE PF].
+  unfold mon_launch. cbn [fst snd ev_inst]. rewrite <- (rc_th _ _ _ HRc), Hth, Hprev.
+  assert (Hb : begun sf i = true) by (eapply begun_own; eauto).
+  cbn in Htr. destruct (pc x) eqn:Ep; try discriminate. specialize (PE eq_refl Hb). cbn in PE.
+  destruct (st (vis_of sf (nm x))); try discriminate; reflexivity.
+Qed.
+
+Definition mon_ab (o : obs) (te : tid * event) : bool := mon_legal o te && mon_launch o te.
+
+Theorem C09_legal_launch_holds ord evs s :
+  accept (init cs ord) evs = Some s -> holds' cs asm evs = true -> w_dup (final_obs cs evs) = false ->
+  holds' cs mon_legal evs = true /\ holds' cs mon_launch evs = true.
+Proof.
+  intros Hacc HA HW. apply andb_true_iff. rewrite <- holds'_and.
+  eapply (sim2_holds cs ord (fun s o => w_dup o = true \/ R2 s o) mon_ab asm w_dup); eauto.
+  - right. apply R2_init.
+  - intros s1 o [th e] s1' HR Hs Ha. destruct (w_dup (obs_step cs o (th, e))) eqn:Ew; [auto|].
+    destruct HR as [Hd|HR]; [rewrite (w_dup_mono cs o (th, e) Hd) in Ew; discriminate|].
+    split; [right; eapply R2_step; eauto|]. left. unfold mon_ab.
+    rewrite (R2_mon_legal _ _ _ _ _ HR Hs Ha), (R2_mon_launch _ _ _ _ _ HR Hs). reflexivity.
+  - apply w_dup_mono.
+Qed.
 End RelC09b.
